@@ -3,7 +3,7 @@
    context cancellation and goroutine exit are primitives of the model. *)
 From FunV Require Import Base.Tac Base.ListX Model.Pipelines
   Proofs.Pipelines_conserve Proofs.Pipelines_quiesce Proofs.Pipelines_nets Proofs.Pipelines_complete Proofs.Pipelines_closer
-  Proofs.Pipelines_loops Proofs.Pipelines_release.
+  Proofs.Pipelines_loops Proofs.Pipelines_release Proofs.Pipelines_nodrop Proofs.Pipelines_completeness Proofs.Pipelines_progress.
 
 (* (iii) a goroutine blocked at a ctx-guarded select whose context is cancelled can take a step *)
 Theorem C04_ctx_guarded_enabled :
@@ -177,3 +177,26 @@ Theorem C04_first_advance_context_limit :
   quiescentb N s = true /\ stuck_users N s = 0 /\ leaks N s = 2 /\ In 1 (s_canc s) /\ In 0 (s_canc s) /\ ~ In 6 (s_canc s).
 Proof. exact reader_parked_in_first_advance_context_not_released. Qed.
 Print Assumptions C04_first_advance_context_limit.
+
+(* C04_finite_input_eof, in full, for a multi-worker construct: GenerateParallel (any n >= 1 workers, any input,
+   any interleaving, generator ending with the end-of-stream signal). This is C04_finite_input_eof_statement at
+   K = KGenerate n GEof: an un-aborted run that can go no further has finished - no goroutine runs, nobody is
+   parked in once.Do - and the consumer saw io.EOF after a permutation of the whole input. *)
+Theorem C04_finite_input_eof_generate :
+  forall n input s,
+    0 < n -> reach (gen_net n GEof) (gen_init n input) s -> s_stopped s = false -> quiescent (gen_net n GEof) s ->
+    all_done s /\ Permutation (s_deliv s) input.
+Proof. exact gen_eof_finite_input_eof. Qed.
+Print Assumptions C04_finite_input_eof_generate.
+
+(* C04_progress_exhaust for the same family: in every reachable NON-terminal state of an exhaust run some step
+   is enabled (deadlock freedom). What is still NOT proved, for any construct: that a fair scheduler reaches the
+   terminal state - termination under fairness needs a fairness notion that this development does not have;
+   what bounds the runs is C04_loops_ctx_guarded (at most |program| instructions between two consultations of a
+   context) and the finiteness of the input. For Map / ProcessParallel / ParallelBuffer / Split / MergeIterators
+   the statement remains a Definition exercised by the executable model and the real exhaust runs. *)
+Theorem C04_progress_exhaust_generate :
+  forall n input s,
+    reach (gen_net n GEof) (gen_init n input) s -> s_stopped s = false -> ~ all_done s -> ~ quiescent (gen_net n GEof) s.
+Proof. exact gen_eof_progress. Qed.
+Print Assumptions C04_progress_exhaust_generate.
